@@ -395,7 +395,8 @@ MANIFEST_TEXT = {
         "technique": "Lean 4 refinement theorems (code-shaped encoder = spec-shaped layout) + exhaustive header table + differential run against the executable spec",
     },
     "C07": {
-        "text": "Lean theorems over a BitVec model of the CRC-24/CRC-32 code and the segment decoder: CRC-24 is xor-linear and no nonzero error "
+        "text": "ChecksumKoopman as REGENERATED from crc/crc24.go on every run is proved to be the CRC of these theorems (Props/C06AsWritten, C07AsWritten). "
+                "Lean theorems over a BitVec model of the CRC-24/CRC-32 code and the segment decoder: CRC-24 is xor-linear and no nonzero error "
                 "of total weight <= 7 over header data + CRC bits is a codeword (complete enumeration of the 3- and 5-byte cases, lifted by "
                 "linearity to every header value), so every 1..7-bit corruption of an encoded header is rejected with a CRC error, for every "
                 "header; CRC-32 is linear and its bit step injective, so every burst of <= 32 bits and every single bit anywhere in payload + "
@@ -430,7 +431,8 @@ MANIFEST_TEXT = {
         "technique": "Lean 4 meta-theorem (induction over heap values) + kernel-decided coverage of shapes/plans regenerated from the Go source",
     },
     "C06": {
-        "text": "Lean theorems over a code-shaped model of segment/*.go and crc/*.go: for every payload of at most 131071 bytes, either "
+        "text": "The header words, the CRC-24 loop, the decoder's field extraction and the header length are REGENERATED from segment/encode.go, segment/decode.go and crc/crc24.go on every run and proved equal to the model; the header word round trip is proved for the code as written (Props/C06AsWritten). "
+                "Lean theorems over a code-shaped model of segment/*.go and crc/*.go: for every payload of at most 131071 bytes, either "
                 "self-contained flag, with or without a payload compressor, decoding the encoded segment (followed by any bytes) returns "
                 "the payload, flag and lengths and leaves exactly the following bytes; the emitted bytes equal the v5 specification's "
                 "layout (little-endian header fields, 17-bit lengths, flag bit 17/34, CRC-24 over 3/5 header bytes, seeded CRC-32 "
@@ -454,7 +456,8 @@ MANIFEST_TEXT = {
         "technique": "Lean 4 theorems parametric in a block-codec contract + differential correspondence of the wrapper logic",
     },
     "C13": {
-        "text": "Lean theorems over code regenerated from conversions.go and the numeric codecs: each of the 54 integer helpers, as a "
+        "text": "The overflow-checked arithmetic of math.go and the time/date/timestamp conversions are REGENERATED statement by statement from the Go source onto bit vectors on every run and proved equal to the model (tie lemmas), and the theorems are restated for the regenerated code (Props/C13AsWritten). "
+                "Lean theorems over code regenerated from conversions.go and the numeric codecs: each of the 54 integer helpers, as a "
                 "function on ALL mathematical integers of its source kind, either returns the same value (representable in the target) or "
                 "an error, and errs only when the value does not fit (exact-or-error, no spurious refusal); and every entry of every "
                 "convertTo*/convertFrom* type switch of the integer codecs — every (CQL integer type, Go integer type) pair, by value and "
@@ -532,7 +535,8 @@ MANIFEST_TEXT = {
         "technique": "Lean 4 round-trip theorems by structural induction over a code-shaped model + differential correspondence",
     },
     "C03": {
-        "text": "Lean theorems: every primitive LengthOf* equals the bytes its writer emits over the whole value domain; every message's "
+        "text": "The vint length and zig-zag code is REGENERATED from primitive/vint.go on every run and proved equal to the model (Props/C03AsWritten). "
+                "Lean theorems: every primitive LengthOf* equals the bytes its writer emits over the whole value domain; every message's "
                 "EncodedLength equals its encoder's output for every valid message; the body length in the header equals the emitted body "
                 "bytes with and without compression; the decoder consumes exactly header + declared length (arbitrary trailing bytes are "
                 "left); and by induction over the sequence, any finite list of frames written back-to-back decodes to the same list with "
